@@ -169,6 +169,33 @@ def main():
     inv = [m["dir"] for m in seeds if not m.get("valid")]
     if inv:
         out.append("\nDelivered but not confirmed here (not counted, kept for the record only): %s.\n" % ", ".join("`%s`" % x for x in inv))
+    # operator-level mutation audit
+    rf = os.path.join(VERIF, "selftest", "opmut_results.json")
+    if os.path.exists(rf):
+        res = json.load(open(rf))
+        tri = {}
+        tf = os.path.join(P, "opmut_triage.json")
+        if os.path.exists(tf):
+            tri = json.load(open(tf))
+        out.append("\n### 7.3 Operator-level mutation audit of the checkers (`tools/opmut.py`)\n\n")
+        out.append("One-token value-level mutants of the non-test source, every check run against each (§7 (d)). `own` = reported by a check of a property that anchors the mutated file; `neighbour` = only by other properties' checks; `tests-kill` = no check fires but the repository's existing suite fails (outside the brief's threat model, listed because each is still a hint); `survivor` = no check fires and the suite is green.\n\n")
+        out.append("| file | mutants | not compiling | caught (own) | caught (neighbour only) | tests-kill | survivors |\n|---|---|---|---|---|---|---|\n")
+        byf = {}
+        for e in res:
+            byf.setdefault(e["file"], []).append(e)
+        tot = [0] * 6
+        for f in sorted(byf):
+            es = byf[f]
+            row = [len(es), sum(e["status"] == "not-compiling" for e in es), sum(e["status"] == "caught" and e.get("own") for e in es), sum(e["status"] == "caught" and not e.get("own") for e in es), sum(e["status"] == "tests-kill" for e in es), sum(e["status"] in ("SURVIVOR", "uncaught") for e in es)]
+            tot = [a + b for a, b in zip(tot, row)]
+            out.append("| `%s` | %s |\n" % (f, " | ".join(str(x) for x in row)))
+        out.append("| **total** | %s |\n" % " | ".join("**%d**" % x for x in tot))
+        sv = [e for e in res if e["status"] in ("SURVIVOR", "uncaught", "tests-kill")]
+        if sv:
+            out.append("\nMutants no check reports, each read and triaged (`no-property` = the mutated function is not behind any listed property; `equivalent` = behaviour unchanged; `closed` = a rule was added afterwards and the mutant is now caught — re-run recorded; `open` = a real gap of this technique, with the reason):\n\n| mutant | status | triage |\n|---|---|---|\n")
+            for e in sv:
+                k = "%s:%s" % (e["file"], e["new"])
+                out.append("| `%s:%d` `%s` → `%s` | %s | %s |\n" % (e["file"], e["line"], e["op"].replace("|", "\\|"), e["new"][:90].replace("|", "\\|"), e["status"].lower(), tri.get(k, tri.get(e["file"], "")).replace("|", "\\|")))
     out.append("\n---------------------------------------------------------------------------\n\n")
     out.append(part("sec8.md"))
     out.append(part("sec9.md"))
